@@ -4,6 +4,7 @@ import (
 	"encoding/json"
 	"fmt"
 	"go/ast"
+	"go/constant"
 	"go/token"
 	"go/types"
 	"os"
@@ -132,6 +133,7 @@ func checkC18(c *Ctx, r *Report) {
 	checkStatusCodeClasses(c, r, "C18.d")
 	checkOwnDocWins(c, r, "C18.b")
 	checkOffsetsIndexTheirText(c, r, "C18.c", "(core/annotations.Attribute).GetValueRange", "core/validators.getRangeForUrlParam")
+	checkSpanEqualsNeedle(c, r, "C18.c", "core/validators.getRangeForUrlParam")
 	checkContainerFields(c, r, "C18.a")
 	ruleDecisionInputs(c, r, "C18.c", "core/validators")
 	// every comment line's own position is asked of the file set (a line guessed from its
@@ -1095,5 +1097,145 @@ func checkOffsetsIndexTheirText(c *Ctx, r *Report, clause string, fns ...string)
 			sites = []string{w.pos(fi.Decl.Pos())}
 		}
 		r.add(clause, "fieldflow", k+":offset-indexes-its-text", k+": an offset found by searching a text is applied to that same text", []string{k}, sites, viol)
+	}
+}
+
+// checkSpanEqualsNeedle: a range that starts at the offset at which a needle was found ends
+// needle-length bytes later. The end bound of the slice is <match offset> + Σ len(v) + Σ const; the
+// needle is a concatenation of string constants and values; both sums must agree, else the range
+// covers more or less than the text that was matched (C18-m20: the needle lost its closing brace,
+// so `{id` also matches inside `{idx}` and the diagnostic about `id` covers `{idx`).
+func checkSpanEqualsNeedle(c *Ctx, r *Report, clause string, fns ...string) {
+	w := c.W
+	for _, k := range fns {
+		fi := need(c, r, clause, k)
+		if fi == nil {
+			continue
+		}
+		viol := ""
+		var sites []string
+		n := 0
+		allInstrs(fi.SSA, true, func(_ *ssa.Function, _ *ssa.BasicBlock, _ int, ins ssa.Instruction) {
+			sl, ok := ins.(*ssa.Slice)
+			if !ok || sl.High == nil {
+				return
+			}
+			if b, isStr := sl.X.Type().Underlying().(*types.Basic); !isStr || b.Kind() != types.String {
+				return
+			}
+			// end bound: leaves of the + tree
+			var search *ssa.Call
+			var lens []ssa.Value
+			constSum, okShape := int64(0), true
+			var walk func(v ssa.Value, d int)
+			walk = func(v ssa.Value, d int) {
+				if d > 6 {
+					okShape = false
+					return
+				}
+				switch x := v.(type) {
+				case *ssa.BinOp:
+					if x.Op != token.ADD {
+						okShape = false
+						return
+					}
+					walk(x.X, d+1)
+					walk(x.Y, d+1)
+				case *ssa.Const:
+					if x.Value == nil {
+						okShape = false
+						return
+					}
+					constSum += x.Int64()
+				case *ssa.Call:
+					if sc := searchResultIn(x, 0); sc != nil && sc == x {
+						if search != nil {
+							okShape = false
+						}
+						search = x
+						return
+					}
+					if b, ok := x.Call.Value.(*ssa.Builtin); ok && b.Name() == "len" && len(x.Call.Args) == 1 {
+						lens = append(lens, stripTrivial(x.Call.Args[0]))
+						return
+					}
+					okShape = false
+				case *ssa.Convert:
+					walk(x.X, d+1)
+				default:
+					okShape = false
+				}
+			}
+			walk(sl.High, 0)
+			if !okShape || search == nil || len(search.Call.Args) < 2 {
+				return
+			}
+			if constSum == 0 && len(lens) == 0 {
+				return // the prefix up to the match: the start of the range, not its end
+			}
+			// needle: leaves of the string concatenation
+			var vals []ssa.Value
+			needleConst := int64(0)
+			okNeedle := true
+			var walkN func(v ssa.Value, d int)
+			walkN = func(v ssa.Value, d int) {
+				if d > 6 {
+					okNeedle = false
+					return
+				}
+				switch x := v.(type) {
+				case *ssa.BinOp:
+					if x.Op != token.ADD {
+						okNeedle = false
+						return
+					}
+					walkN(x.X, d+1)
+					walkN(x.Y, d+1)
+				case *ssa.Const:
+					if x.Value == nil || x.Value.Kind() != constant.String {
+						okNeedle = false
+						return
+					}
+					needleConst += int64(len(constant.StringVal(x.Value)))
+				default:
+					vals = append(vals, stripTrivial(v))
+				}
+			}
+			needle := search.Call.Args[1]
+			walkN(needle, 0)
+			if !okNeedle {
+				return
+			}
+			n++
+			sites = append(sites, w.pos(sl.Pos()))
+			// len(needle) as a whole
+			if len(lens) == 1 && constSum == 0 && (lens[0] == stripTrivial(needle) || equivLoad(lens[0], stripTrivial(needle), 0)) {
+				return
+			}
+			match := constSum == needleConst && len(lens) == len(vals)
+			if match {
+				used := make([]bool, len(vals))
+				for _, l := range lens {
+					found := false
+					for i, v := range vals {
+						if !used[i] && (l == v || equivLoad(l, v, 0)) {
+							used[i], found = true, true
+							break
+						}
+					}
+					if !found {
+						match = false
+					}
+				}
+			}
+			if !match {
+				viol = fmt.Sprintf("%s: %s ends the range %d constant byte(s) + %d measured value(s) after the offset at which %s matched, but the needle searched (%s) is %d constant byte(s) + %d value(s) long: the range does not cover the text that was matched, and a needle that is not the whole delimited token also matches inside a longer one", w.pos(sl.Pos()), k, constSum, len(lens), calleeName(search), sliceOf(needle), needleConst, len(vals))
+			}
+		})
+		if n == 0 {
+			sites = []string{w.pos(fi.Decl.Pos())}
+			viol = fmt.Sprintf("%s: %s: no range end of the form <match offset> + <needle length> recognised (undecided)", w.pos(fi.Decl.Pos()), k)
+		}
+		r.add(clause, "fieldflow", k+":span-equals-needle", k+": a range that starts where a needle matched ends needle-length bytes later", []string{k}, sites, viol)
 	}
 }
